@@ -41,6 +41,7 @@ func runC16(c *eng.Ctx) {
 	onlyStorableFieldTypesAccepted(c)
 	lineTagsResolvedBeforeTheBuilder(c)
 	namespaceFallbackIsReachable(c)
+	shardIteratorBoundedByTheRowCount(c)
 	p := c.P
 	familyGroupContainsItsFirstRow(c)
 	tagsHashIsStateless(c)
